@@ -114,6 +114,7 @@ def make_unary(sink: str):
         "set": "@print {%s%s, 1}\n@sealed\n", "version": "ns.Leaf.%s%s.0 x\n@sealed\n",
         "ftype": "%s%s fx\n@sealed\n", "atype": "%s%s[2] fx\n@sealed\n", "vtype": "%s%s[<=2] fx\n@extent 8 * 1000\n",
         "utype": "@union\nuint8 a\n%s%s fx\n@sealed\n", "ctype": "%s%s CONST = 1\n@sealed\n",
+        "ftype-offset": "uint8 a\n%s%s fx\n@assert _offset_ %% 8 == {0}\n@sealed\n",
     }
 
     def concrete(u: int, i: int) -> typing.Any:
@@ -248,6 +249,37 @@ def make_dep(variant: int):
         return textio.native(concrete, a)
 
     _ = variant
+    return h
+
+
+def make_dup_files():
+    """Real directory: two files that map to the same name and version (choice over the spellings)."""
+    from .. import model
+
+    pairs = [("Foo.1.0.dsdl", "100.Foo.1.0.dsdl"), ("Foo.1.0.dsdl", "Foo.1.0.uavcan"), ("7.Foo.1.0.dsdl", "8.Foo.1.0.dsdl"),
+             ("Foo.1.0.dsdl", "sub/../Foo.1.0.dsdl")]
+
+    def concrete(i: int, same_text: int) -> typing.Any:
+        import pydsdl
+
+        a, b = pairs[i]
+        if ".." in b:
+            return True
+        root = model.scratch_dir("c13d").resolve()
+        model.write_tree(root, {"ns/" + a: "uint8 x\n@sealed\n", "ns/" + b: "uint8 x\n@sealed\n" if same_text else "uint16 y\n@sealed\n",
+                                "ns/User.1.0.dsdl": "@sealed\n"})
+        try:
+            pydsdl.read_namespace(root / "ns", [], allow_unregulated_fixed_port_id=True)
+        except pydsdl.InvalidDefinitionError as ex:
+            return True if ex.path is not None else "error without a path"
+        return True  # accepting is not what C13 is about
+
+    def h(i: int, same_text: int) -> typing.Any:
+        a, b = pick(i, 0, len(pairs) - 1), pick(same_text, 0, 1)
+        if a is None or b is None:
+            return None
+        return textio.native(concrete, a, b)
+
     return h
 
 
@@ -404,7 +436,7 @@ def conditions(tier: str, seed: int) -> typing.List[Cond]:
                                      % len(OPERANDS)],
                         witness={"i": 4, "j": 8}, budget=1800.0, need_exhaust=True, key="key_c13"))
     for sink in ["print", "assert", "const", "fconst", "bconst", "cap", "capi", "extent", "attr", "attr-min", "attr-count", "set", "version", "ftype",
-                 "atype", "vtype", "utype", "ctype"]:
+                 "atype", "vtype", "utype", "ctype", "ftype-offset"]:
         out.append(Cond(PROP, "c13.sinks", make_unary, {"sink": sink}, {"u": int, "i": int}, kind="choice",
                         assumptions=["unary form in {none, +, -, !} x operand spelling x value sink"],
                         witness={"u": 2, "i": 13}, budget=600.0, need_exhaust=True, key="key_c13"))
@@ -456,6 +488,10 @@ def conditions(tier: str, seed: int) -> typing.List[Cond]:
     out.append(Cond(PROP, "c13.dep", make_dep, {"variant": 0}, {"i": int}, kind="choice", witness={"i": 2}, budget=120.0,
                     assumptions=["15 faulty dependency bodies (parse-stage and finalize-stage faults, self reference, back reference): "
                                  "the error must carry the DEPENDENCY's path"],
+                    need_exhaust=True, key="key_c13"))
+    out.append(Cond(PROP, "c13.dup-files", make_dup_files, {}, {"i": int, "same_text": int}, kind="choice",
+                    assumptions=["two files of one directory mapping to the same name and version (with / without port-ID, "
+                                 ".dsdl / .uavcan), same or different text"], witness={"i": 0, "same_text": 0}, budget=120.0,
                     need_exhaust=True, key="key_c13"))
     out.append(Cond(PROP, "c13.huge", make_huge, {}, {"i": int}, kind="choice", witness=None, budget=120.0,
                     assumptions=["numbers with more than 4300 decimal digits reaching a print / message / literal site"],
